@@ -1486,6 +1486,19 @@ class Engine:
             r = fresh("ceil")
             st.assume(z3.ToReal(r) >= v, z3.ToReal(r) < v + 1)
             return r
+        if name in ("math.isclose", "numpy.isclose") and len(args) == 2:
+            # dependency contract (CPython): |a-b| <= max(rel_tol*max(|a|,|b|), abs_tol); infinities are close only to themselves
+            rel = kwargs.get("rel_tol", kwargs.get("rtol", 1e-9 if name.startswith("math") else 1e-5))
+            ab = kwargs.get("abs_tol", kwargs.get("atol", 0.0 if name.startswith("math") else 1e-8))
+            if not all(isinstance(x, (int, float)) for x in (rel, ab)):
+                raise Unsupported("isclose with symbolic tolerances")
+            a, b = (x if isinstance(x, Ext) else Ext.fin(x) for x in args)
+            absv = lambda t: If(t >= 0, t, -t)
+            mx = If(absv(a.val) >= absv(b.val), absv(a.val), absv(b.val))
+            tol = If(RealVal(repr(float(rel))) * mx >= RealVal(repr(float(ab))), RealVal(repr(float(rel))) * mx, RealVal(repr(float(ab))))
+            if name.startswith("numpy"):
+                tol = RealVal(repr(float(ab))) + RealVal(repr(float(rel))) * absv(b.val)
+            return If(And(a.is_fin(), b.is_fin()), absv(a.val - b.val) <= tol, Or(And(a.pinf, b.pinf), And(a.ninf, b.ninf)))
         if name in ("sklearn.utils.Bunch",):
             d = PyDict(kwargs)
             d.bunch = True
